@@ -26,6 +26,18 @@ func payload(id uint32, n int) []byte {
 
 var frameType uint8 = net.Post
 
+// mixed: with frameType 0 every sender mixes message types (an event followed
+// by a post, a reply, a call...): the order clause speaks of the messages of a
+// sender, whatever their types.
+var mixed = [][]uint8{{net.Event, net.Post, net.Event}, {net.Call, net.Event, net.Reply}, {net.Event, net.Error, net.Capability}}
+
+func typeOf(sender, seq int) uint8 {
+	if frameType != 0 {
+		return frameType
+	}
+	return mixed[(sender+2)%3][seq%3]
+}
+
 func intact(m *net.Message) bool {
 	if int(m.Header.Size) != len(m.Payload) {
 		return false
@@ -34,7 +46,7 @@ func intact(m *net.Message) bool {
 	if sender < 1 || sender > 3 || seq > 3 {
 		return false
 	}
-	if m.Header.Type != frameType || m.Header.Service != sender || m.Header.Object != 9 || m.Header.Action != seq+50 {
+	if m.Header.Type != typeOf(int(sender), int(seq)) || m.Header.Service != sender || m.Header.Object != 9 || m.Header.Action != seq+50 {
 		return false
 	}
 	want := payload(m.Header.ID, sizes[(int(sender)+int(seq))%len(sizes)])
@@ -98,7 +110,7 @@ func body(nSenders, perSender int, frag bool, typ uint8, blockedFirst bool) func
 			workers = append(workers, vrt.GoWorker(fmt.Sprintf("sender%d", s), func() {
 				for k := 0; k < perSender; k++ {
 					id := uint32(s*100 + k)
-					m := net.NewMessage(net.NewHeader(typ, uint32(s), 9, uint32(k+50), id), payload(id, sizes[(s+k)%len(sizes)]))
+					m := net.NewMessage(net.NewHeader(typeOf(s, k), uint32(s), 9, uint32(k+50), id), payload(id, sizes[(s+k)%len(sizes)]))
 					if err := a.Send(m); err != nil {
 						sendErr++
 					}
@@ -120,7 +132,7 @@ func body(nSenders, perSender int, frag bool, typ uint8, blockedFirst bool) func
 			want := 0
 			for sd := 1; sd <= nSenders; sd++ {
 				for k := 0; k < perSender; k++ {
-					h := net.NewHeader(typ, uint32(sd), 9, uint32(k+50), uint32(sd*100+k))
+					h := net.NewHeader(typeOf(sd, k), uint32(sd), 9, uint32(k+50), uint32(sd*100+k))
 					if s.sel(&h) {
 						want++
 					}
@@ -526,6 +538,8 @@ func init() {
 		Doc: "12 handlers on one endpoint (two beyond the preallocated table), 8 patterns of removals, optionally one more registration; three frames: every remaining handler receives exactly its subsequence"})
 	reg.Register(&reg.Scenario{Property: "C10", Name: "calls-blocked-first-handler", Body: body(2, 2, false, net.Call, true), Quick: 2, Thorough: 4,
 		Doc: "2 senders x 2 Call frames; the first registered handler selects everything but never drains its 1-slot queue", MustFlag: []string{"sender-overtaken"}})
+	reg.Register(&reg.Scenario{Property: "C10", Name: "two-senders-mixed-types", Body: body(2, 3, false, 0, false), Quick: 2, Thorough: 4,
+		Doc: "two senders x 3 frames each, every sender mixing message types (event, post, reply, call, error, capability): each sender's frames arrive in the order it sent them whatever their types"})
 	reg.Register(&reg.Scenario{Property: "C10", Name: "two-senders", Body: body(2, 2, false, net.Post, false), Quick: 2, Thorough: 5,
 		Doc: "2 senders x 2 frames on one endpoint, 4 handler filters on the peer", MustFlag: []string{"sender-overtaken"}})
 	reg.Register(&reg.Scenario{Property: "C10", Name: "two-senders-after-failed-sends", Body: afterFailedSends(body(2, 2, false, net.Post, false)), Quick: 2, Thorough: 4,
